@@ -244,6 +244,16 @@ type c40Cfg struct {
 	fpThreshold    uint32
 	maxPct         uint32
 	base, maxEject time.Duration
+	// fixed enforcement percentages overriding the scenario's (set = true)
+	fixEnf       bool
+	srEnf, fpEnf uint32
+}
+
+func (c c40Cfg) enforcement(scenario uint32) (sr, fp uint32) {
+	if c.fixEnf {
+		return c.srEnf, c.fpEnf
+	}
+	return scenario, scenario
 }
 
 func (c c40Cfg) noop() bool { return !c.sr && !c.fp }
@@ -257,6 +267,8 @@ var c40Menu = map[string]c40Cfg{
 	"fp-max50": {name: "fp-max50", fp: true, fpMin: 1, fpThreshold: 50, maxPct: 50, base: 10 * time.Second, maxEject: 15 * time.Second},
 	"fp-max25": {name: "fp-max25", fp: true, fpMin: 2, fpThreshold: 50, maxPct: 25, base: 20 * time.Second, maxEject: 5 * time.Second},
 	"sr":       {name: "sr", sr: true, srMin: 2, srFactor: 500, maxPct: 100, base: 20 * time.Second, maxEject: 5 * time.Second},
+	// success-rate enforced, failure-percentage detected but never enforced
+	"sr100+fp0": {name: "sr100+fp0", sr: true, srMin: 2, srFactor: 500, fp: true, fpMin: 1, fpThreshold: 50, maxPct: 100, base: 10 * time.Second, maxEject: 15 * time.Second, fixEnf: true, srEnf: 100, fpEnf: 0},
 	"sr+fp":    {name: "sr+fp", sr: true, srMin: 2, srFactor: 500, fp: true, fpMin: 1, fpThreshold: 50, maxPct: 50, base: 10 * time.Second, maxEject: 15 * time.Second},
 }
 
@@ -268,11 +280,12 @@ func (c c40Cfg) lb(w *c40World, enf uint32) *LBConfig {
 		MaxEjectionPercent: c.maxPct,
 		ChildPolicy:        &iserviceconfig.BalancerConfig{Name: c40StubName, Config: &c40ChildCfg{w: w}},
 	}
+	srEnf, fpEnf := c.enforcement(enf)
 	if c.sr {
-		cfg.SuccessRateEjection = &SuccessRateEjection{StdevFactor: c.srFactor, EnforcementPercentage: enf, MinimumHosts: c.srMin, RequestVolume: c40Vol}
+		cfg.SuccessRateEjection = &SuccessRateEjection{StdevFactor: c.srFactor, EnforcementPercentage: srEnf, MinimumHosts: c.srMin, RequestVolume: c40Vol}
 	}
 	if c.fp {
-		cfg.FailurePercentageEjection = &FailurePercentageEjection{Threshold: c.fpThreshold, EnforcementPercentage: enf, MinimumHosts: c.fpMin, RequestVolume: c40Vol}
+		cfg.FailurePercentageEjection = &FailurePercentageEjection{Threshold: c.fpThreshold, EnforcementPercentage: fpEnf, MinimumHosts: c.fpMin, RequestVolume: c40Vol}
 	}
 	return cfg
 }
@@ -417,8 +430,8 @@ func c40Perms(xs []string) [][]string {
 // candidates, returning the distinct outcomes. With hypo set the gate is
 // evaluated on the bump-on-every-ejection counter instead of the real share
 // (the suspected defect; used only to name a mismatch).
-func (m *c40Model) c40EjectAll(in []c40Snap, must, either []string, hypo bool) []c40Snap {
-	if m.enf == 0 {
+func (m *c40Model) c40EjectAll(in []c40Snap, must, either []string, hypo bool, enf uint32) []c40Snap {
+	if enf == 0 {
 		return in // enforcement 0 %: the random draw in [0,100) is never below 0
 	}
 	seen := map[string]bool{}
@@ -475,6 +488,7 @@ func (m *c40Model) tick(hypo bool) []c40Snap {
 	}
 	start.inc = start.ejected()
 	snaps := []c40Snap{start}
+	srEnf, fpEnf := m.cfg.enforcement(m.enf)
 	var vol []string
 	for _, n := range c40Sorted(m.eps) {
 		if inact[n].s+inact[n].f >= c40Vol {
@@ -511,7 +525,7 @@ func (m *c40Model) tick(hypo bool) []c40Snap {
 				either = append(either, n) // exact tie: floating point may decide either way
 			}
 		}
-		snaps = m.c40EjectAll(snaps, must, either, hypo)
+		snaps = m.c40EjectAll(snaps, must, either, hypo, srEnf)
 	}
 	if m.cfg.fp && len(vol) >= int(m.cfg.fpMin) {
 		var must []string
@@ -520,7 +534,7 @@ func (m *c40Model) tick(hypo bool) []c40Snap {
 				must = append(must, n)
 			}
 		}
-		snaps = m.c40EjectAll(snaps, must, nil, hypo)
+		snaps = m.c40EjectAll(snaps, must, nil, hypo, fpEnf)
 	}
 	// multiplier decay and un-ejection
 	seen := map[string]bool{}
@@ -618,6 +632,7 @@ type c40Op struct {
 }
 
 type c40Scenario struct {
+	dq, dt  int // depth bound quick / thorough
 	name    string
 	enf     uint32
 	initCfg string
@@ -648,7 +663,7 @@ func c40CallOps(eps []string, kinds []string) []c40Op {
 }
 
 func c40MkScenario(name string, enf uint32, initCfg string, initEps []string, callEps []string, kinds []string, cfgs []string, toggles []string) c40Scenario {
-	sc := c40Scenario{name: name, enf: enf, initCfg: initCfg, initEps: initEps}
+	sc := c40Scenario{name: name, enf: enf, initCfg: initCfg, initEps: initEps, dq: 6, dt: 9}
 	sc.ops = append(sc.ops, c40Op{name: "tick", kind: "tick"})
 	sc.ops = append(sc.ops, c40CallOps(callEps, kinds)...)
 	for _, t := range toggles {
@@ -1064,8 +1079,18 @@ func c40Scenarios(thorough bool) []c40Scenario {
 		c40MkScenario("sr-enf100", 100, "sr", e3, e3, []string{"fail", "ok", "half"}, []string{"noop", "sr+fp"}, []string{"e0", "e3"}),
 		// 4 endpoints, tight gate (25 %), min hosts 2, base > max ejection time
 		c40MkScenario("gate25-enf100", 100, "fp-max25", []string{"e0", "e1", "e2", "e3"}, e3, []string{"fail", "ok"}, []string{"fp", "sr"}, []string{"e0", "e3"}),
-		// enforcement 0 %: nothing may ever be ejected
-		c40MkScenario("all-enf0", 0, "sr+fp", e3, e3, []string{"fail", "ok"}, []string{"noop", "fp", "sr"}, []string{"e0"}),
+		// enforcement 0 %: nothing may ever be ejected, except under the one config
+		// that enforces success-rate at 100 % next to failure-percentage at 0 %
+		c40MkScenario("enf0-or-sr100fp0", 0, "sr+fp", e3, e3, []string{"fail", "ok"}, []string{"noop", "fp", "sr", "sr100+fp0"}, []string{"e0"}),
+		// long histories over a small alphabet: repeated ejection / un-ejection of
+		// one endpoint, so multipliers >= 2, their decay and both branches of
+		// min(base x multiplier, max(base, max_ejection_time)) are reached
+		func() c40Scenario {
+			sc := c40MkScenario("unej-enf100", 100, "fp", []string{"e0", "e1"}, nil, nil, []string{"noop", "fp", "sr"}, nil)
+			sc.ops = append(sc.ops[:1:1], append(append(c40CallOps([]string{"e0"}, []string{"fail", "ok"}), c40CallOps([]string{"e1"}, []string{"ok"})...), sc.ops[1:]...)...)
+			sc.dq, sc.dt = 11, 14
+			return sc
+		}(),
 	}
 }
 
@@ -1089,7 +1114,7 @@ func TestVerif_C40_Outlier(t *testing.T) {
 			continue
 		}
 		seqx.BFS(r, []string{P}, seqx.Config{
-			Name: sc.name, Ops: c40Names(sc.ops), MaxDepth: r.Pick(6, 8), Parallel: 4,
+			Name: sc.name, Ops: c40Names(sc.ops), MaxDepth: r.Pick(sc.dq, sc.dt), Parallel: 4,
 			Congruence: r.Thorough(), CongruenceMax: 100, MinStates: 50,
 			Run: c40Runner(t, sc, drift, st),
 		})
